@@ -623,10 +623,22 @@ def t_file(ck, ctx, guards):
                     callers.append((f, call))
         if not callers:
             ck.note(f"{fq} has no caller in the package")
-        for f, call in callers:
+        def guarded(f, call, depth=0):
+            """the call sits under `if <atom>` in the guarding function - directly, or through a helper whose every call site does"""
             atoms = guard_atoms(f.node, stmt_of(f, call))
-            ck.ob("T-FILE.guard", f"{f.qual} -> {fq} under `{atom}`", f.qual == caller_q and (atom, True) in atoms,
-                  f"{fq} creates files; it may be called only from {caller_q} under `if {atom}` "
+            if f.qual == caller_q and (atom, True) in atoms:
+                return True, atoms
+            if depth >= 3:
+                return False, atoms
+            ups = [(g, c) for g in m.all_funcs() for c, callee in cg.callees(g) if callee is f]
+            if not ups:
+                return False, atoms
+            return all(guarded(g, c, depth + 1)[0] for g, c in ups), atoms
+        for f, call in callers:
+            ok, atoms = guarded(f, call)
+            where = caller_q if f.qual == caller_q else f"{caller_q} (through {f.qual})"
+            ck.ob("T-FILE.guard", f"{caller_q} -> {fq} under `{atom}`" if ok else f"{f.qual} -> {fq} under `{atom}`", ok,
+                  f"{fq} creates files; it may be called only from {where} under `if {atom}` "
                   f"(guards found: {atoms})", f.loc(call))
     return len(sites)
 
